@@ -4,9 +4,9 @@ set -u
 seed=$1; shift
 cd /repo || exit 2
 if [ -n "$(git status --porcelain -- src Cargo.toml)" ]; then echo "/repo not clean"; exit 2; fi
-git apply /verif/seeded/$seed/patch.diff || { echo "patch does not apply"; exit 2; }
+git apply ${VERIF_DIR:-/verif}/seeded/$seed/patch.diff || { echo "patch does not apply"; exit 2; }
 trap 'git -C /repo checkout -- . ' EXIT
-cd /verif
+cd ${VERIF_DIR:-/verif}
 for p in "$@"; do
   s=$(date +%s)
   ./check $p --tier quick > /var/tmp/seed_${seed}_$p.log 2>&1
